@@ -244,7 +244,7 @@ def run_ports (case, rep):
         return True
       if len(case["steps"]) % 2 and reason != REASON_FEATURES:
         # ... and a notification on the other one leaves this one alone
-        od = ctl.phy_port(n, name="o_%s" % nm, hw=hw, config=cfg, state=0)
+        od = ctl.phy_port(n, name="o%d_%s" % (n, nm), hw=hw, config=cfg, state=0)
         oraw = ofwire.enc_message("port_status", dict(
           xid=0, reason=REASON_DELETE if n in other_model and cfg else REASON_MODIFY, desc=od))
         nb = len(events)
